@@ -408,6 +408,53 @@ def as_b(x):
 
 
 # ------------------------------------------------------------------ array helpers
+class SymArray(np.ndarray):
+    """object ndarray whose any()/all() build ONE disjunction/conjunction instead of forking per element
+    (NumPy's logical_or.reduce would truth-test element after element)."""
+    __array_priority__ = 20
+
+    def any(self, axis=None, out=None, keepdims=False, **kw):
+        if axis is None and out is None and not keepdims and self.dtype == object:
+            bs = []
+            for v in self.flat:
+                if isinstance(v, Sym):
+                    b = X.bnot(v.eq_b(Sym(X.ZERO)))
+                elif isinstance(v, SymBool):
+                    b = v.b
+                else:
+                    b = X.TRUE if v else X.FALSE
+                if b.op == "true":
+                    return True
+                bs.append(b)
+            return _mkbool(X.bor(*bs))
+        return np.asarray(self).any(axis=axis, out=out, keepdims=keepdims, **kw)
+
+    def all(self, axis=None, out=None, keepdims=False, **kw):
+        if axis is None and out is None and not keepdims and self.dtype == object:
+            bs = []
+            for v in self.flat:
+                if isinstance(v, Sym):
+                    b = X.bnot(v.eq_b(Sym(X.ZERO)))
+                elif isinstance(v, SymBool):
+                    b = v.b
+                else:
+                    b = X.TRUE if v else X.FALSE
+                if b.op == "false":
+                    return False
+                bs.append(b)
+            return _mkbool(X.band(*bs))
+        return np.asarray(self).all(axis=axis, out=out, keepdims=keepdims, **kw)
+
+
+def symview(a):
+    """view object ndarrays as SymArray (no copy); everything else unchanged"""
+    if type(a) is np.ndarray and a.dtype == object:
+        return a.view(SymArray)
+    if isinstance(a, tuple):
+        return tuple(symview(x) for x in a)
+    return a
+
+
 
 def has_sym(a):
     """True if a (array-like) holds any Sym"""
@@ -431,7 +478,7 @@ def sym_array(name, shape, kind="real"):
     mk = {"real": Sym.R, "cplx": Sym.C, "int": Sym.I}[kind]
     for idx in np.ndindex(*shape):
         a[idx] = mk("%s[%s]" % (name, ",".join(map(str, idx))))
-    return a
+    return a.view(SymArray)
 
 
 def lift_array(a):
